@@ -172,6 +172,7 @@ def c17():
 
 
 def c18():
+    many_names = ["c%d" % k for k in range(2000)]
     a = create("f0", "/a", L_FIXED, PX5)
     ln = lambda soft: {"op": "ln", "soft": soft, "src": {"file": "f0", "path": "/a"}, "dst": {"file": "f0", "path": "/l"}}
     rn = lambda path, m, held=False: {"op": "rename", "file": "f0", "path": path, "map": m, "held": held}
@@ -186,6 +187,12 @@ def c18():
         [a, ln(True), {"op": "hold", "file": "f0", "path": "/a"}, rn("/l", {"c1": "c2", "c2": "c1"}),
          rn("/a", {"c1": "z"}, held=True)],
         [a, {"op": "intify", "file": "f0", "path": "/a"}, rn("/a", {"c2": "a-much-longer-name-than-before"})],
+        # thousands of contigs renamed to long names: the enumerated type of the bin table's chromosome
+        # column no longer fits an HDF5 object header (64 KiB) and the labels must be stored another way
+        [create("f0", "/", lay(many_names, [[0, 5]] * len(many_names)), [(0, 1, 1), (1, 7, 2), (5, 1999, 3), (1999, 1999, 4)],
+                form="df"),
+         rn("/", {nm: "scaffold_%06d_unplaced_genomic_contig" % k for k, nm in enumerate(many_names)}),
+         rn("/", {"scaffold_000007_unplaced_genomic_contig": "x7"}, held=True)],
     ]
 
 
@@ -203,7 +210,12 @@ def c11():
     a2 = create("f0", "/", lay(["c1", "c2"], [[0, 2, 4, 6, 8, 10, 12], [0, 2, 4, 6, 8]]), px2, form="df")
     whole = {"op": "balance", "file": "f0", "path": "/", "options": dict(opts, ignore_diags=1),
              "configs": [{"map": "builtin", "chunksize": None}], "visit": []}
-    return [[a, b], [a, b2], [a, whole, a2, whole]]
+    # ... and rewritten over a table of the same size whose chromosome boundary moved, balanced per
+    # chromosome (cis only) before and after
+    a3 = create("f0", "/", lay(["c1", "c2"], [[0, 2, 4, 6, 8, 10], [0, 2, 4, 6, 8, 10]]), px2, form="df")
+    cis = {"op": "balance", "file": "f0", "path": "/", "options": dict(opts, ignore_diags=1, cis_only=True),
+           "configs": [{"map": "builtin", "chunksize": 7}, {"map": "pool.map", "chunksize": 9, "nproc": 2}], "visit": []}
+    return [[a, b], [a, b2], [a, whole, a2, whole], [a, cis, a3, cis]]
 
 
 def c02(tier="quick"):
